@@ -263,3 +263,7 @@ impl Payload for NodeInfo {
         Self::decode(r)
     }
 }
+
+#[cfg(vpncloud_verif)]
+#[path = "/verif/harness/hooks/messages.rs"]
+pub mod verif;
